@@ -244,20 +244,6 @@ def serialize (m : Msg) : Bytes := serializeWith sendBlock m
 def serializeFile (blk rblk : Nat) (command : Bytes) (h : Dic) (content : Bytes) : Bytes :=
   headerBlock command (sentHeaders h) ++ writeFile (isChunked (sentHeaders h)) blk rblk content ++ endOf h
 
-/-- whether `sendHeaders` chooses the chunked coding itself (75c75d0): a response written in pieces that names neither a
-length nor a coding; the library then announces the coding and ends the message -/
-def ownChunks (h : Dic) : Bool := !hasHeader h sContentLength && !hasHeader h sTransferEncoding
-
-/-- the header block `sendHeaders` emits for a response written in pieces -/
-def streamHeaders (h : Dic) : Dic :=
-  if ownChunks h then setHeader h sTransferEncoding sChunked else sentHeaders h
-
-/-- a handler streaming `parts` through `write(part)` one after the other (headers first); `fin`: the handler ends the
-stream by hand; a stream whose chunking was the library's choice is ended by the library (the server's closing `write()`) -/
-def serializeStream (blk : Nat) (command : Bytes) (h : Dic) (parts : List Bytes) (fin : Bool) : Bytes :=
-  headerBlock command (streamHeaders h) ++ (parts.map (writeBody (isChunked (streamHeaders h)) blk)).flatten ++
-    (if fin || ownChunks h then lastChunk else [])
-
 /-! ## the connection as the reader sees it -/
 
 structure Inp where
@@ -317,6 +303,10 @@ def readHeadersLoop : Nat → Inp → Dic → Bytes → Bytes → Dic × Inp
         | none => (h, { i' with closed := true })
         | some k =>
           let name' := l.take k
+          -- a field name is a token: empty, or with a blank, a control character or DEL in it ("Content-Length : 5"),
+          -- the line ends the header block like a line without colon (9bf376e)
+          if k = 0 ∨ name'.all (fun c => decide (32 < c) && c != 127) = false then (h, { i' with closed := true })
+          else
           let value' := trimmed (l.drop (k + 1))
           readHeadersLoop f i' (storeHeader h name' value') name' value'
 
@@ -594,6 +584,35 @@ def codeMsg (code : Nat) : Bytes :=
 
 def statusLine (proto : Bytes) (code : Nat) : Bytes := proto ++ [32] ++ utoa code ++ [32] ++ codeMsg code
 
+/-- a status whose message never has a body (RFC 7230 3.3.3): its header block is the whole message -/
+def bodyless (code : Nat) : Bool := code < 200 || code == 204 || code == 304
+
+/-- a response that names neither a length nor a coding when its headers go out (written in pieces) -/
+def unframed (h : Dic) : Bool := !hasHeader h sContentLength && !hasHeader h sTransferEncoding
+
+/-- whether `sendHeaders` chooses the chunked coding itself (75c75d0, 3e98c13): an unframed response with a status that can
+have a body, not to an HTTP/1.0 request; the library then announces the coding and ends the message -/
+def ownChunks (proto : Bytes) (code : Nat) (h : Dic) : Bool := unframed h && !bodyless code && proto != sHttp10
+
+/-- the same to an HTTP/1.0 request (687f097): the pieces go out as they are under `Connection: close` and the library ends
+the message by closing the connection -/
+def endByClose (proto : Bytes) (code : Nat) (h : Dic) : Bool := unframed h && !bodyless code && proto == sHttp10
+
+/-- the header block `sendHeaders` emits for a response written in pieces -/
+def streamHeaders (proto : Bytes) (code : Nat) (h : Dic) : Dic :=
+  if ownChunks proto code h then setHeader h sTransferEncoding sChunked
+  else if endByClose proto code h then setHeader h sConnection sClose
+  else sentHeaders h
+
+/-- a handler streaming `parts` through `write(part)` one after the other (headers first); `fin`: the handler ends the
+stream by hand; a stream whose chunking was the library's choice is ended by the library (the server's closing `write()`
+or `putFile()`) -/
+def serializeStream (blk : Nat) (proto : Bytes) (code : Nat) (h : Dic) (parts : List Bytes) (fin : Bool) : Bytes :=
+  let hs := streamHeaders proto code h
+  headerBlock (statusLine proto code) hs ++ (parts.map (writeBody (isChunked hs && !endByClose proto code h) blk)).flatten ++
+    (if fin || ownChunks proto code h then lastChunk else [])
+
+
 /-- outcome of `putFile(path, begin, end)` for a file of `n` bytes when a range was asked:
 `some (b, e)` = bytes b..e are announced and sent, `none` = unsatisfiable (`bytes */n`) -/
 def rangeOf (n : Nat) (b e : Int) : Option (Nat × Nat) :=
@@ -843,9 +862,10 @@ def serveOne (blk rblk : Nat) (optionsDefault : Bool) (q : Request) (p : Plan) (
         { called := true, wire := serializeWith blk { command := statusLine proto p.code, headers := h, body := sMoved }, keep := keep }
     | .stream parts fin =>
       let h := setHeader h sTransferEncoding sChunked
-      { called := true, wire := serializeStream blk (statusLine proto p.code) h parts fin, keep := keep }
+      { called := true, wire := serializeStream blk proto p.code h parts fin, keep := keep }
     | .streamAuto parts =>
-      { called := true, wire := serializeStream blk (statusLine proto p.code) h parts false, keep := keep }
+      -- an unframed stream to an HTTP/1.0 request ends with the connection
+      { called := true, wire := serializeStream blk proto p.code h parts false, keep := keep && !endByClose proto p.code h }
     | .missing =>
       -- 404 "Not found" as an ordinary body; the connection is kept or closed as after any other response (f26c43e)
       let h := allow p.code h
